@@ -271,7 +271,10 @@ def run_unit(spec, unit, cfile, lines, outdir, tier='quick', trace=False, extra_
     if unwind:
         flags += ['--unwind', str(unwind), '--unwinding-assertions']
     if unit.get('_no_loop_contracts'):
-        flags += ['--unwind', '6', '--no-unwinding-assertions']
+        flags += ['--unwind', str(unit.get('falsify_unwind', 8)), '--no-unwinding-assertions']
+    solver_choice = unit.get('solver', spec.get('solver'))
+    if solver_choice and not any(f == '--sat-solver' for f in unit.get('flags', [])):
+        flags += ['--sat-solver', solver_choice]
     flags += list(unit.get('flags', [])) + list(extra_flags)
     if unit.get('object_bits'):
         flags += ['--object-bits', str(unit['object_bits'])]
@@ -299,7 +302,9 @@ def run_unit(spec, unit, cfile, lines, outdir, tier='quick', trace=False, extra_
         if trace and r.get('status') == 'FAILURE' and 'trace' in r:
             ob['trace'] = r['trace']
         obs.append(ob)
-    solver = 'cbmc 6.11 SAT (MiniSat2)' if not any(f.startswith('--sat-solver') or f in ('--z3', '--cvc5') for f in flags) else ' '.join(flags)
+    solver = 'cbmc 6.11 SAT (MiniSat2)'
+    if '--sat-solver' in flags:
+        solver = 'cbmc 6.11 SAT (%s)' % flags[flags.index('--sat-solver') + 1]
     return dict(name=unit['name'], mode=mode, unwind=unwind, obligations=obs, secs=round(time.time() - t0, 2),
                 solver_secs=round(secs, 2), status=status, solver=solver,
                 cmd='goto-cc --function %s <gen.c> ; %s ; %s' % (unit['harness'], unit.get('_instr_cmd', '(no instrumentation: lemma harness)'), ' '.join(['cbmc'] + flags)))
